@@ -123,14 +123,43 @@ func c17SpecOf(kind, typ string) *c17Spec {
 	return nil
 }
 
+// c17Wanted: VERIF_C17_TYPES=goType,goType restricts generation to these mechanism types (used when the
+// regenerated effect table lists a write for them: the search is focused there).
+func c17Wanted(s *c17Spec) bool {
+	f := os.Getenv("VERIF_C17_TYPES")
+	if f == "" {
+		return true
+	}
+
+	for _, t := range strings.Split(f, ",") {
+		if t == s.goType {
+			return true
+		}
+	}
+
+	return false
+}
+
 func c17PickSpec(r *vf.Rand) *c17Spec {
 	tot := 0
+
 	for i := range c17Specs {
-		tot += c17Specs[i].weight
+		if c17Wanted(&c17Specs[i]) {
+			tot += c17Specs[i].weight
+		}
+	}
+
+	if tot == 0 {
+		return &c17Specs[r.Intn(len(c17Specs))]
 	}
 
 	n := r.Intn(tot)
+
 	for i := range c17Specs {
+		if !c17Wanted(&c17Specs[i]) {
+			continue
+		}
+
 		n -= c17Specs[i].weight
 		if n < 0 {
 			return &c17Specs[i]
@@ -716,6 +745,16 @@ func (rn *c17Runner) run() (obs map[string]any, coq string, tags []string, nontr
 
 	obs = map[string]any{"steps": steps, "instances": len(insts), "hashed_nodes": rn.nodes, "reference_unstable": rn.unstable}
 
+	if vf.Only() >= 0 {
+		// replay of a single case: show the behaviour strings behind the digests
+		raw := map[string]string{}
+		for s, n := range rn.istr {
+			raw[strconv.Itoa(n)] = s
+		}
+
+		obs["behaviours"] = raw
+	}
+
 	// non-trivial: at least one accepted variant whose view differs from its source, and at least one
 	// execution after a variant was created
 	return obs, coq, tags, nWith >= 1 && nExec >= 1
@@ -733,6 +772,10 @@ func c17Corpus() []c17Case {
 
 	for i := range c17Specs {
 		s := &c17Specs[i]
+		if !c17Wanted(s) {
+			continue
+		}
+
 		r := vf.NewRand(uint64(7000 + i))
 		c := c17Case{Cat: []c17Proto{{s.kind, s.typ, s.goType, s.proto(r)}}, Variant: s.variants[0], Group: "corpus/" + s.goType}
 		o1, o2 := s.ovr(r), s.ovr(r)
@@ -748,6 +791,10 @@ func c17Corpus() []c17Case {
 	// http_cache, executed before and after a variant is created
 	for _, typ := range []string{"jwt", "oauth2_introspection"} {
 		s := c17SpecOf("authenticator", typ)
+		if !c17Wanted(s) {
+			continue
+		}
+
 		out = append(out, c17Case{
 			Cat: []c17Proto{{s.kind, s.typ, s.goType, map[string]any{
 				"metadata_endpoint": map[string]any{"url": "http://idp.test/.well-known/oauth-authorization-server"}}}},
@@ -951,23 +998,26 @@ func c17RaceWhere(report string) []string {
 				w = w[:j]
 			}
 
-			// first frame inside heimdall
-			for k := i + 1; k < len(lines) && k < i+40; k++ {
-				fl := strings.TrimSpace(lines[k])
-				if fl == "" {
+			// first frame inside heimdall (function line followed by "      <file>:<line> +0x..")
+			for k := i + 1; k+1 < len(lines) && k < i+60; k++ {
+				fn := strings.TrimSpace(lines[k])
+				if fn == "" {
 					break
 				}
 
-				if strings.Contains(fl, "heimdall/internal") && !strings.Contains(fl, "zz_verif") && strings.Contains(fl, ".go:") {
-					if p := strings.Index(fl, "internal/"); p >= 0 {
-						fl = fl[p:]
+				loc := strings.TrimSpace(lines[k+1])
+				if strings.Contains(fn, "github.com/dadrus/heimdall/") && strings.Contains(loc, ".go:") &&
+					!strings.Contains(loc, "zz_verif") && !strings.Contains(loc, "zzverif") {
+					if p := strings.Index(loc, " +0x"); p >= 0 {
+						loc = loc[:p]
 					}
 
-					if p := strings.Index(fl, " "); p >= 0 {
-						fl = fl[:p]
+					if p := strings.LastIndex(loc, "/internal/"); p >= 0 {
+						loc = loc[p+1:]
 					}
 
-					w += " " + fl
+					fn = strings.TrimPrefix(fn, "github.com/dadrus/heimdall/internal/")
+					w += " in " + fn + " " + loc
 
 					break
 				}
